@@ -43,7 +43,8 @@ def plan(tier, seed):
         'rule': 'NeGra heuristic: every hierarchy over n tokens (<= u unary insertions) x every assignment of '
                 '{HD,NK,--} to every child; rule presets: every (preset, parent category, listed child category) '
                 'of both tables x child sequences of length 1..%d with the listed child at every position and '
-                'unlisted categories elsewhere x 5 label decorations x children as tokens or constituents; '
+                'unlisted categories elsewhere x 5 label decorations x children as tokens or constituents; the listed child '
+                'next to one unlisted sister from the pinned tag sets of both treebanks and the tables\' own vocabulary; '
                 'rejections. non-trivial = distinct cases in which the expected head is not the leftmost child'
                 % maxlen,
         'bound': ', '.join('n=%d:u<=%d' % s for s in specs) + '; %d table entries, sequences <= %d' % (len(items), maxlen),
@@ -224,6 +225,38 @@ def wide_rule_cases(lo, hi):
                            'pos': pos, 'tokens': as_tokens}
 
 
+# the tag sets of the two treebanks the presets are written for (pinned here; many tags extend another one: NN/NNP/NNS,
+# VB/VBN, IN/INTJ, S/SBAR/SBARQ/SINV/SQ, CARD/CAR..., PRP/PRP$)
+PTB_TAGS = ('CC CD DT EX FW IN JJ JJR JJS LS MD NN NNS NNP NNPS PDT POS PRP PRP$ RB RBR RBS RP SYM TO UH VB VBD VBG VBN '
+            'VBP VBZ WDT WP WP$ WRB HYPH NFP ADD AFX ADJP ADVP CONJP FRAG INTJ LST NAC NP NX PP PRN PRT QP RRC UCP VP WHADJP '
+            'WHADVP WHNP WHPP X S SBAR SBARQ SINV SQ').split()
+STTS_TAGS = ('ADJA ADJD ADV APPR APPRART APPO APZR ART CARD FM ITJ KOUI KOUS KON KOKOM NN NE PDS PDAT PIS PIAT PIDAT PPER '
+             'PPOSS PPOSAT PRELS PRELAT PRF PWS PWAT PWAV PAV PTKZU PTKNEG PTKVZ PTKANT PTKA TRUNC VVFIN VVIMP VVINF VVIZU '
+             'VVPP VAFIN VAIMP VAINF VAPP VMFIN VMINF VMPP XY AA AP AVP CAC CAP CAVP CCP CH CNP CO CPP CS CVP CVZ DL ISU MTA '
+             'NM NP PN PP QL S VP VZ').split()
+
+
+def vocab_filler_cases(lo, hi):
+    """The listed child next to ONE unlisted sister taken from the tag set of the treebank and from the table's own
+    vocabulary (categories that extend, or are extended by, a listed one: NNP next to nn, SBAR next to s), on both sides."""
+    for preset, parent, child, listed in rule_items()[lo:hi]:
+        table = headrules.HEAD_RULES_PTB if preset == 'ptb' else headrules.HEAD_RULES_NEGRA
+        vocab = set(PTB_TAGS if preset == 'ptb' else STTS_TAGS)
+        for par in table:
+            vocab.add(par.upper())
+            for _, prio in table[par]:
+                vocab.update(x.upper() for x in prio.split())
+        low = set(x.lower() for x in listed)
+        for v in sorted(vocab):
+            if v.lower() in low or v == '-' or not v:
+                continue
+            for pos in (0, 1):
+                labs = [v, v]
+                labs[pos] = child.upper()
+                yield {'preset': preset, 'parent': parent.upper() if parent != '-' else parent, 'children': labs,
+                       'pos': pos, 'tokens': True}
+
+
 def empty_element_cases(lo, hi):
     """Unlisted siblings that are PTB empty elements (-NONE-, *T*-1, *) to the left and right of the listed child."""
     for preset, parent, child, listed in rule_items()[lo:hi]:
@@ -355,7 +388,7 @@ def run_chunk(chunk):
         elif chunk['kind'] == 'rules':
             c = None
             for c in itertools.chain(rule_cases(chunk['lo'], chunk['hi'], chunk['maxlen']), wide_rule_cases(chunk['lo'], chunk['hi']),
-                                     empty_element_cases(chunk['lo'], chunk['hi'])):
+                                     empty_element_cases(chunk['lo'], chunk['hi']), vocab_filler_cases(chunk['lo'], chunk['hi'])):
                 vs = check_rule(c)
                 res.evals += 1
                 res.nontrivial += 1 if c['pos'] != 0 else 0
